@@ -4,8 +4,8 @@ from __future__ import annotations
 import typed
 
 ID = "C07"
-THEOREMS = ["follow_elabSound", "follow_emits_elab", "streamOp_emits_elab", "methodElab_full_positional", "candElab_full", "fillDefaults_full", "fillLoop_full", "follow_refusals_are_declared", "fill_matches_bind", "fillLoop_tail", "fillLoop_skip", "fill_missing_required", "operators_untouched", "findKeyword_eq"]
-LEANCHECKER_MODULES = ["Fadl.Props.C07", "Fadl.Props.C07Elab"]  # re-checked by leanchecker in the thorough tier
+THEOREMS = ["follow_spec", "streamOp_spec_ok", "streamOp_spec_error", "follow_fuel_irrelevant", "follow_elabSound", "follow_emits_elab", "streamOp_emits_elab", "methodElab_full_positional", "candElab_full", "fillDefaults_full", "fillLoop_full", "follow_refusals_are_declared", "fill_matches_bind", "fillLoop_tail", "fillLoop_skip", "fill_missing_required", "operators_untouched", "findKeyword_eq"]
+LEANCHECKER_MODULES = ["Fadl.Props.FuelMono", "Fadl.Props.FollowSpec", "Fadl.Props.C07", "Fadl.Props.C07Elab"]  # re-checked by leanchecker in the thorough tier
 RULE = (
     "generated class models (gen/classes.py: Trk, Cal, Jet, Vec[T](Iterable[T]), JVec(Vec[Jet]), Evt, an optional registered "
     "collection class, two registered functions; 0-4 parameters per method with a random suffix of defaults of int/float/"
